@@ -29,6 +29,10 @@ func getSignificandPlusOne(float64Bits uint64) float64 {
 // exponent should be >= -1022 and <= 1023
 // significandPlusOne should be >= 1 and < 2
 func buildFloat64(exponent int, significandPlusOne float64) float64 {
+	if exponent > exponentBias {
+		// Beyond the largest finite binade: saturate instead of letting the exponent bits wrap around.
+		return math.Inf(1)
+	}
 	return math.Float64frombits(
 		(uint64((exponent+exponentBias)<<exponentShift) & exponentMask) | (math.Float64bits(significandPlusOne) & significandMask),
 	)
